@@ -9,6 +9,12 @@ executed / up-to-date member (`CalcS`, justified by the statuses of the state), 
 them; `bad_deps` / `ignored_deps` hold failed / ignored dependencies only.  Lifted to all nodes as `InvN`. -/
 namespace DoitModel.Run.Dyn
 
+/-- a failing calc task that delivered nothing: only executed / up-to-date calc tasks deliver -/
+theorem delivOf_noFail {inp : RunInput} [h : NoFailDeliver inp] (c : Name) (d : Den) :
+    delivOf inp c d = if d.rs.good then inp.calcRes c else {} := by
+  unfold delivOf; rw [h.nil c]; split <;> simp
+
+
 /-- calc_deps of `n` justified by the statuses in `s` -/
 inductive CalcS (inp : RunInput) (s : Sys) (n : Name) : Name → Prop
   | static {c : Name} : c ∈ inp.calcDep n → CalcS inp s n c
